@@ -757,6 +757,45 @@ func persistBeforeApply(c *core.Ctx, rule, pkg, fnName string) {
 				points = append(points, cm)
 			}
 		}
+		// the command is issued on every path that reports success: a successful return that skipped redis
+		// (e.g. because the in-memory mirror, empty after a restart, has no entry) leaves the stored state behind
+		if len(points) > 0 && f.Signature.Results().Len() > 0 {
+			isPoint := func(in ssa.Instruction) bool {
+				for _, pt := range points {
+					if pt.Instr == in {
+						return true
+					}
+				}
+				return false
+			}
+			r0 := ssax.Analyze(f, ssax.ReachOpts{})
+			to := func(in ssa.Instruction) bool {
+				ret, ok := in.(*ssa.Return)
+				if !ok || len(ret.Results) == 0 {
+					return false
+				}
+				last := ret.Results[len(ret.Results)-1]
+				if last.Type().String() != "error" || r0.FactAt(ret, last, false).K == ssax.NonNil {
+					return false
+				}
+				// the mirror is a subset of what redis holds (it is empty after a restart): finding the entry
+				// in the mirror is proof enough, not finding it is not
+				for _, g := range ssax.Guards(ret) {
+					if ex, ok := g.Cond.(*ssa.Extract); ok && ex.Index == 1 && g.Branch {
+						if l, isL := ex.Tuple.(*ssa.Lookup); isL && l.CommaOk && ssax.AnyIn(ssax.Backward(l.X), func(v ssa.Value) bool { return strings.HasPrefix(ssax.FieldOwner(v), mf.pkg+".") }) {
+							return false
+						}
+					}
+				}
+				return true
+			}
+			in, skipped := (ssax.PathQuery{Fn: f, To: to, Avoid: isPoint, Feasible: r0}).Find()
+			pos := fpos(c, f)
+			if skipped {
+				pos = ipos(c, in)
+			}
+			c.Check(!skipped, rule, key+"|command-on-every-success-path", pos, "no successful return without the redis command", "the function can report success without having issued its redis command (an early return that trusts the in-memory mirror): after a restart the stored state is never updated")
+		}
 		for i, m := range muts {
 			k := fmt.Sprintf("%s|mutation#%d", key, i)
 			var dom *redisCmd
